@@ -176,6 +176,34 @@ def w_list(exe, modes, strings, opts, prop, src, with_email=False, subrange=Fals
     return part
 
 
+def width_boundary_strings(tier, utf8=False):
+    """Inputs that straddle the widths a length / index / run counter might have (2^8, 2^15, 2^16): a long valid body with the
+    deciding byte placed right at, before and after the boundary; long runs of one structural unit inside quotes."""
+    out = []
+    marks = [254, 255, 256, 257, 258, 510, 511, 512, 513, 32767, 32768, 32769, 65534, 65535, 65536, 65537, 65538]
+    if tier != "quick":
+        marks += [1023, 1024, 1025, 4095, 4096, 4097, 131071, 131072, 131073]
+    unit = "é".encode() if utf8 else b"a"
+    for n in marks:
+        body = (unit * n)[:n]
+        if utf8 and len(body) % 2:
+            body = body[:-1] + b"a"
+        for tail in (b"", b" ", b".", b"..b", b'"', b".\"q\"", b"(", b"\x80" if not utf8 else b"\xc3", b'."q"x'):
+            out.append(body + tail)
+        out.append(b"." + body)
+        # runs inside a quoted string: whitespace, escaped pairs, dots; then an ordinary character and the closing quote
+        for ru in (b" ", b"\t", b" \t", b"\r\n ", b"\\\\", b'\\"', b".", b"a "):
+            run = (ru * (n // len(ru) + 1))[:n]
+            if run.endswith(b"\\") and not run.endswith(b"\\\\"):
+                run = run[:-1] + b"a"
+            out.append(b'"' + run + b'a"')
+            out.append(b'"a' + run + b'"')
+            out.append(b'"' + run + b'"')
+        out.append((b'"a".' * (n // 4 + 1))[:-1])
+        out.append((b"a." * (n // 2 + 1)) + b"b")
+    return [s for s in out if s and b"\x00" not in s]
+
+
 def conformance_strings(mode, opts=frozenset()):
     return OL.conformance_suite(mode, opts, extra=1)
 
